@@ -448,6 +448,8 @@ func HostileMessage(mid []byte, parsed bool) (m *fbb.Message, ok bool) {
 	return m, true
 }
 
+var relaySeq int
+
 func applyJailOp(h *mailbox.DirHandler, mbox string, op Op) string {
 	mid := string(op.MID)
 	switch op.Kind {
@@ -468,6 +470,43 @@ func applyJailOp(h *mailbox.DirHandler, mbox string, op Op) string {
 		return "ok"
 	case "SetDeferred":
 		h.SetDeferred(mid)
+		return "ok"
+	case "relay-sent", "relay-rejected", "relay-deferred":
+		// A history instead of a single call: a message whose Mid header was chosen by a remote
+		// station sits in the outbox under a harmless file name (a received message relayed by
+		// copying it there), the handler hands it out (GetOutbound, as every session does before
+		// proposing) and is then told what became of it - with the identifier the handler itself
+		// returned. A handler that trusts "its own" identifiers is exposed here only.
+		relaySeq++
+		had := map[string]bool{}
+		for _, m := range h.GetOutbound() {
+			had[m.MID()] = true
+		}
+		tmpl := MsgSpec{MID: "PLACEHOLDER1", From: "N0EVIL", To: []string{"N0DST"}, BodyLen: 40, Tag: hex.EncodeToString(op.MID)}.Build()
+		raw := bytes.Replace(MustBytes(tmpl), []byte("Mid: PLACEHOLDER1\r\n"), append(append([]byte("Mid: "), op.MID...), '\r', '\n'), 1)
+		name := filepath.Join(mbox, mailbox.DIR_OUTBOX, fmt.Sprintf("RELAY%07d%s", relaySeq, mailbox.Ext))
+		if err := os.WriteFile(name, raw, 0o644); err != nil {
+			return "skipped: cannot plant the outbox file: " + err.Error()
+		}
+		defer os.Remove(name)
+		handed := 0
+		for _, m := range h.GetOutbound() {
+			if had[m.MID()] {
+				continue // was in the outbox before (ordinary content)
+			}
+			handed++
+			switch op.Kind {
+			case "relay-sent":
+				h.SetSent(m.MID(), false)
+			case "relay-rejected":
+				h.SetSent(m.MID(), true)
+			default:
+				h.SetDeferred(m.MID())
+			}
+		}
+		if handed == 0 {
+			return "skipped: GetOutbound did not hand the planted message out"
+		}
 		return "ok"
 	}
 	if f := jailOps[op.Kind]; f != nil {
